@@ -20,6 +20,9 @@ func genC10(t *rapid.T) ArgvCase {
 	cfg.MinCmds = 1
 	cfg.MaxOpts = 3
 	cfg.Help = 1
+	// required options exist in a third of the definitions: whether one is missing is decided for the
+	// addressed command's own view (a wrapper that unset the inherited options does not answer for its ancestors')
+	cfg.Required = rapid.IntRange(0, 2).Draw(t, "withrequired") == 0
 	spec := GenProg(t, cfg)
 	ac := DefaultArgvCfg()
 	ac.MaxItems = 9
